@@ -496,3 +496,50 @@ func init() {
 		o.MinSites(4)
 	})
 }
+
+// labelValidityRule: which alerts are valid.  A label or annotation set is accepted exactly when every name passes
+// compat.IsValidLabelName and every value passes LabelValue.IsValid (valid UTF-8); anything stricter rejects valid
+// alerts of a batch, anything laxer stores invalid ones.
+func labelValidityRule(o *Ob) {
+	e := o.E
+	fn := o.Fn("am/alert.validateLs")
+	o.Site(fnFirst(fn), "validateLs")
+	nameOK := L("am/matcher/compat.IsValidLabelName(next(range(p0))#1)", true)
+	valOK := L("(model.LabelValue).IsValid(next(range(p0))#2)", true)
+	more := L("next(range(p0))#0", true)
+	o.Table(fn, "labels", []Row{
+		{Name: "an invalid name", Assume: A(more, nameOK.Neg()), Ret: [][]string{Vals(anyErr)}},
+		{Name: "an invalid value", Assume: A(more, nameOK, valOK.Neg()), Ret: [][]string{Vals(anyErr)}},
+		{Name: "all pairs valid", Assume: A(nameOK, valOK), Ret: [][]string{Vals("nil")}},
+		{Name: "empty set", Assume: A(more.Neg()), Ret: [][]string{Vals("nil")}},
+	})
+	// nothing else decides: every error exit is behind one of the two tests
+	for _, ret := range (&Walk{Fn: fn}).FromEntry().Returns() {
+		if e.X(fn, ret.Results[0]) != "nil" {
+			o.Guarded(ret, "labels-other-reject", "rejecting a label set", nameOK.Neg(), valOK.Neg())
+		}
+	}
+	ls := e.Loops(fn)
+	if o.Check(len(ls) == 1, "labels-loop", "validateLs must be one loop over the set", fnFirst(fn)) {
+		coll, _ := e.RangeOver(ls[0])
+		o.Check(coll == "p0", "labels-range", "validateLs must range over the given set, ranges over "+coll, fnFirst(fn))
+		// an invalid pair ends the check: the loop cannot go on to the next pair past a failed test
+		never := func(ssa.Instruction) bool { return false }
+		o.Check(!loopBackWithout(o, ls[0], never, e.CutContradicting(nameOK.Neg())), "labels-name-passes", "a pair with an invalid name can pass", fnFirst(fn))
+		o.Check(!loopBackWithout(o, ls[0], never, e.CutContradicting(nameOK, valOK.Neg())), "labels-value-passes", "a pair with an invalid value can pass", fnFirst(fn))
+	}
+	// Validate applies it to labels and annotations
+	v := o.Fn("(*am/alert.Alert).Validate")
+	args := map[string]bool{}
+	for _, c := range e.Calls(v, "am/alert.validateLs") {
+		args[e.Arg(c, 0)] = true
+	}
+	o.Check(args["recv.Alert.Labels"] && args["recv.Alert.Annotations"], "labels-both", "Validate must check labels and annotations", fnFirst(v))
+}
+
+func init() {
+	reg("C13", "C13.12", "T6", "which alerts are valid: a label or annotation set is rejected exactly when a name fails compat.IsValidLabelName or a value fails LabelValue.IsValid; Validate checks both sets", func(o *Ob) {
+		labelValidityRule(o)
+		o.MinSites(1)
+	})
+}
